@@ -137,6 +137,18 @@ class ChainIter:
         return "chain(%s)" % ", ".join(repr(p) for p in self.parts)
 
 
+class CharStream:
+    """`s.chars()` of a symbolic string as a positional stream: element k is the term at(src, k); whether it exists is the atom
+    has(src, k) (monotone: has(k) ⇒ has(j) for j < k).  Clones share the source and keep their own position."""
+    __slots__ = ("src", "pos")
+
+    def __init__(self, src, pos=0):
+        self.src, self.pos = src, pos
+
+    def __repr__(self):
+        return "chars(%s)@%d" % (fmt(self.src), self.pos)
+
+
 class MapV:
     """Concrete map / set (HashMap, BTreeMap, HashSet, …): an association list compared with `Eq` on the keys (symbolic keys
     give eq atoms).  Sets are maps to UNIT.  Iteration order is the insertion order — rules must not rely on it."""
@@ -180,6 +192,8 @@ def term(v):
         return ("tuple",) + tuple(term(x) for x in v)
     if isinstance(v, list):
         return ("list",) + tuple(term(x) for x in v)
+    if isinstance(v, CharStream):
+        return ("stream", v.src, v.pos)
     if isinstance(v, MapV):
         return ("map",) + tuple(("tuple", term(k), term(x)) for k, x in v.items)
     if isinstance(v, Iter):
@@ -212,6 +226,10 @@ def fmt(t, depth=0):
         return "%s(%s)" % (re.sub(r"<[^<>]*>", "", t[1]).split("::")[-1], ", ".join(f(x) for x in t[2]))
     if k == "payload":
         return "%s!%s%s" % (f(t[1]), t[2], ("." + str(t[3])) if t[3] else "")
+    if k == "at":
+        return "%s[%s]" % (f(t[1]), t[2])
+    if k == "stream":
+        return "chars(%s)@%s" % (f(t[1]), t[2])
     if k == "elem":
         return "%s[*%s]" % (f(t[1]), t[2])
     if k == "lit":
@@ -359,8 +377,9 @@ IDENTITY_FNS = re.compile(
 
 
 class Evaluator:
-    def __init__(self, F, oracle=None, inline_depth=4, opaque=None, loop_bound=2, inline_filter=None, concrete_vec=False):
+    def __init__(self, F, oracle=None, inline_depth=4, opaque=None, loop_bound=2, inline_filter=None, concrete_vec=False, char_streams=False):
         self.F = F
+        self.char_streams = char_streams  # `sym_str.chars()` evaluates to a positional CharStream
         self.concrete_vec = concrete_vec  # Vec::new()/with_capacity() evaluate to concrete (mutable) empty lists
         self.oracle = oracle            # callable(fn_path, node) -> None | "opaque"
         self.opaque = re.compile(opaque) if isinstance(opaque, str) else opaque
@@ -1309,6 +1328,12 @@ class Evaluator:
                 cands = self.F.find(r"^<(\w+::)*%s as core::convert::From<alloc::vec::Vec>>::from$" % re.escape(head))
                 if cands:
                     return self.call_fn(cands[0], [a0], depth, node)
+        if self.char_streams and isinstance(a0, Sym) and name == "chars" and (base.endswith("str::chars") or "str" in base):
+            return CharStream(a0.t, 0)
+        if isinstance(a0, CharStream):
+            r = self.stream_builtin(name, a0, args, depth, node)
+            if r is not NotImplemented:
+                return r
         if isinstance(a0, list) and name in ("try_from", "try_into") and "convert::Try" in base and node is not None and node.get("targs_full"):
             # Vec<T>/slice → [T; N]: succeeds exactly when the length is N (the Vec is handed back otherwise)
             for t_ in node["targs_full"]:
@@ -1767,6 +1792,61 @@ class Evaluator:
             return self.call_fn(cands[0], [list(xs)], depth, node)
         return list(xs)
 
+    def stream_has(self, st, k):
+        if k > getattr(self, "max_stream_len", 1 << 30):
+            raise Abort("stream length bound")
+        for (a, c) in list(self.path.val.items()):
+            if a[0] == "has" and a[1] == st.src:
+                if c and a[2] >= k:
+                    return True
+                if (not c) and a[2] <= k:
+                    return False
+        return self.path.decide(("has", st.src, k), [True, False])
+
+    def stream_next(self, st):
+        if self.stream_has(st, st.pos):
+            x = Sym(("at", st.src, st.pos))
+            self.types.setdefault(x.t, "char")
+            st.pos += 1
+            return V("Some", (x,))
+        return V("None")
+
+    def stream_builtin(self, name, st, args, depth, node):
+        if name == "next" and len(args) == 1:
+            return self.stream_next(st)
+        if name == "clone":
+            return CharStream(st.src, st.pos)
+        if name in ("by_ref", "peekable", "into_iter", "fuse", "iter"):
+            return st
+        if name == "peek" and len(args) == 1:
+            if self.stream_has(st, st.pos):
+                return V("Some", (Sym(("at", st.src, st.pos)),))
+            return V("None")
+        if name in ("take", "skip", "nth", "advance_by") and len(args) == 2 and isinstance(args[1], int) and not isinstance(args[1], bool):
+            n = args[1]
+            if name == "take":
+                out = []
+                for _ in range(n):
+                    v = self.stream_next(st)
+                    if v.name == "None":
+                        break
+                    out.append(v.fields[0])
+                return out
+            if name in ("skip", "advance_by"):
+                for _ in range(n):
+                    if self.stream_next(st).name == "None":
+                        break
+                return st if name == "skip" else UNIT
+            v = V("None")
+            for _ in range(n + 1):
+                v = self.stream_next(st)
+                if v.name == "None":
+                    break
+            return v
+        if name in ("all", "any", "find", "position", "count", "last", "collect", "for_each", "try_for_each", "map", "filter", "rev", "enumerate", "zip", "chain", "fold"):
+            raise Abort("CharStream::%s (unbounded traversal of a positional stream)" % name)
+        return NotImplemented
+
     def map_find(self, m, key):
         for cell in m.items:
             if self.compare("Eq", cell[0], key):
@@ -2066,5 +2146,5 @@ def lit_value(v):
 
 
 def explore(F, fn, opaque=None, **kw):
-    return Evaluator(F, opaque=opaque, **{k: v for k, v in kw.items() if k in ("inline_depth", "loop_bound", "inline_filter", "concrete_vec")}).explore(
+    return Evaluator(F, opaque=opaque, **{k: v for k, v in kw.items() if k in ("inline_depth", "loop_bound", "inline_filter", "concrete_vec", "char_streams")}).explore(
         fn, **{k: v for k, v in kw.items() if k in ("args", "max_paths", "finalize")})
